@@ -179,6 +179,14 @@ def run(tier, seed, replay=None):
                 recs.append({"kind": kind, "hi": j[0], "map": j[1], "pv": cmdrec.PVALS[j[2]][0], "row": rows.add(cells)})
             else:
                 recs.append({"kind": kind, "len": j[0], "cells": cells})
+        if replay is None or replay["case"].get("kind") in ("dec16", "dec24"):
+            # the same tables from fresh interpreters (one submodule imported; application classes declared on top)
+            from . import freshproc
+            fresh = freshproc.decode_records(rows)
+            if replay is not None:
+                fresh = [r_ for r_ in fresh if [r_.get("dt", r_.get("hi")), r_.get("hb", r_.get("map", 0))] == replay["case"]["key"][:2]]
+            ncells += sum(len(rows.rows[r_["row"] - 1]) for r_ in fresh)
+            recs += fresh
         recs += pure
         ncells += sum(len(p["ev"]) for p in pure)
         for ix, r_ in enumerate(recs, 1):
